@@ -38,6 +38,8 @@ const (
 	opJUMPI          = 0x57
 	opMSIZE          = 0x59
 	opGAS            = 0x5a
+	opADDRESS        = 0x30
+	opSUB            = 0x03
 	opJUMPDEST       = 0x5b
 	opTLOAD          = 0x5c
 	opTSTORE         = 0x5d
